@@ -100,6 +100,10 @@ def execute(stim):
                     if conf.get('slowstop'):
                         await asyncio.sleep(conf['slowstop'] * TICK)
                     await orig(self)
+                    if conf.get('busytail'):
+                        # the clean-up routine ends with a blocking piece of code: timers that
+                        # become due meanwhile are collected by the loop right afterwards
+                        st['loop'].advance(conf['busytail'] * TICK)
                     if fault == 'stop_async':       # after the block's own housekeeping
                         raise fire('stop_async', b, False)
                 finally:
